@@ -35,6 +35,7 @@ pub struct Shared {
     max_inflight: usize,
     dup_inflight: bool,
     ignore_abort_permille: u64,
+    drop_abort: bool,
     mode_rng: Option<Rng>,
     // the trace gathered so far (so a watchdog can dump it when the controller hangs)
     pub header: J,
@@ -55,10 +56,25 @@ impl AsyncObjectiveFunction for Obj {
             if sh.inflight_ids.contains(&id) { sh.dup_inflight = true; }
             sh.inflight_ids.push(id);
             sh.max_inflight = sh.max_inflight.max(sh.inflight_ids.len());
-            if sh.abort_probe.is_none() { sh.abort_probe = Some(abort.clone()); }
+            if sh.abort_probe.is_none() && !sh.drop_abort { sh.abort_probe = Some(abort.clone()); }
             let p = sh.ignore_abort_permille;
-            sh.mode_rng.as_mut().map(|r| r.below(1000) < p).unwrap_or(false)
+            (sh.mode_rng.as_mut().map(|r| r.below(1000) < p).unwrap_or(false), sh.drop_abort)
         };
+        let (ignore, drop_abort) = ignore;
+        if drop_abort {
+            drop(abort);
+            let out = (&mut rx).await.unwrap();
+            {
+                let mut sh = self.sh.lock().unwrap();
+                if let Some(p) = sh.inflight_ids.iter().position(|x| *x == id) { sh.inflight_ids.remove(p); }
+            }
+            return match out {
+                Outcome::Acc(x) => Ok(Some(x)),
+                Outcome::Rej => Ok(None),
+                Outcome::Fail(k) => Err(Error::Io(std::io::Error::new(std::io::ErrorKind::Other, format!("cvh-fail-{k}")))),
+                Outcome::NonFinite(x) => Ok(Some(x)),
+            };
+        }
         let out = tokio::select! {
             biased;
             o = &mut rx => o.unwrap(),
@@ -115,6 +131,9 @@ pub struct Scenario {
     pub forced: Option<Vec<(u64, Outcome)>>,
     /// > 0: not a scripted scenario but one LONG run of this many evaluations (seeds / ids over a long history)
     pub long_evals: usize,
+    /// every evaluation drops its abort receiver at once (an objective function that cannot be aborted and does not
+    /// keep the channel): nobody listens to the abort broadcast, and the harness keeps no receiver of its own either
+    pub drop_abort: bool,
 }
 
 const SPECS: &[(&str, &[&str])] = &[
@@ -137,7 +156,7 @@ pub fn gen_scenario(rng: &mut Rng, thorough: bool) -> Scenario {
             target: None, sample_size: 1 + rng.below(3) as usize, spec_yaml: spec.to_string(), guess: None,
             script_seed: rng.next(), term_round: None, fail_permille: 0, rej_permille: *rng.pick(&[0, 50, 200]),
             nonfinite_permille: 0, burst_permille: *rng.pick(&[0, 300]), ignore_abort_permille: *rng.pick(&[0, 1000]),
-            pool: rng.below(8) as u8, max_rounds: rounds, fail_after_term_only: false, withhold: vec![], forced: None, long_evals: 0,
+            pool: rng.below(8) as u8, max_rounds: rounds, fail_after_term_only: false, withhold: vec![], forced: None, long_evals: 0, drop_abort: false,
         };
     }
     if rng.chance(1, 14) {
@@ -149,7 +168,7 @@ pub fn gen_scenario(rng: &mut Rng, thorough: bool) -> Scenario {
             nc: 1 + rng.below(3) as usize, max_eval: None, target: Some(*rng.pick(&[-3.0, -2.0, -4.5])), sample_size: ss,
             spec_yaml: spec.to_string(), guess: None, script_seed: rng.next(), term_round: None, fail_permille: 0,
             rej_permille: *rng.pick(&[0, 50]), nonfinite_permille: 0, burst_permille: *rng.pick(&[0, 300]),
-            ignore_abort_permille: 0, pool: 4, max_rounds: if thorough { 1500 } else { 500 }, fail_after_term_only: false, withhold: vec![], forced: None, long_evals: 0,
+            ignore_abort_permille: 0, pool: 4, max_rounds: if thorough { 1500 } else { 500 }, fail_after_term_only: false, withhold: vec![], forced: None, long_evals: 0, drop_abort: false,
         };
     }
     if rng.chance(1, 16) {
@@ -160,7 +179,7 @@ pub fn gen_scenario(rng: &mut Rng, thorough: bool) -> Scenario {
             nc: 2 + rng.below(5) as usize, max_eval: None, target: None, sample_size: 1, spec_yaml: spec.to_string(), guess: None,
             script_seed: rng.next(), term_round: Some(3 + rng.below(12) as usize), fail_permille: *rng.pick(&[300, 700]), rej_permille: 100,
             nonfinite_permille: *rng.pick(&[0, 200]), burst_permille: *rng.pick(&[0, 300]), ignore_abort_permille: 1000, pool: rng.below(8) as u8,
-            max_rounds: 80, fail_after_term_only: true, withhold: vec![], forced: None, long_evals: 0,
+            max_rounds: 80, fail_after_term_only: true, withhold: vec![], forced: None, long_evals: 0, drop_abort: false,
         };
     }
     let nc = 1 + rng.below(8) as usize;
@@ -191,7 +210,7 @@ pub fn gen_scenario(rng: &mut Rng, thorough: bool) -> Scenario {
         nonfinite_permille: *rng.pick(&[0, 0, 0, 10, 50]),
         burst_permille: *rng.pick(&[0, 200, 600]),
         ignore_abort_permille: *rng.pick(&[0, 0, 500, 1000]),
-        pool, max_rounds, fail_after_term_only: false, withhold: vec![], forced: None, long_evals: 0,
+        pool, max_rounds, fail_after_term_only: false, withhold: vec![], forced: None, long_evals: 0, drop_abort: rng.chance(1, 8),
     }
 }
 
@@ -202,7 +221,7 @@ pub fn scenario_json(sc: &Scenario) -> J {
         "guess": sc.guess, "hasGuess": sc.guess.is_some(), "scriptSeed": sc.script_seed, "termRound": sc.term_round,
         "failPermille": sc.fail_permille, "rejPermille": sc.rej_permille, "nonfinitePermille": sc.nonfinite_permille,
         "burstPermille": sc.burst_permille, "ignoreAbortPermille": sc.ignore_abort_permille, "pool": sc.pool,
-        "maxRounds": sc.max_rounds, "failAfterTermOnly": sc.fail_after_term_only, "longEvals": sc.long_evals,
+        "maxRounds": sc.max_rounds, "failAfterTermOnly": sc.fail_after_term_only, "longEvals": sc.long_evals, "dropAbort": sc.drop_abort,
     })
 }
 
@@ -221,7 +240,7 @@ pub fn scenario_from_json(j: &J) -> Scenario {
         burst_permille: u("burstPermille"), ignore_abort_permille: u("ignoreAbortPermille"), pool: u("pool") as u8,
         max_rounds: u("maxRounds") as usize,
         fail_after_term_only: j["failAfterTermOnly"].as_bool().unwrap_or(false),
-        withhold: vec![], forced: None, long_evals: u("longEvals") as usize,
+        withhold: vec![], forced: None, long_evals: u("longEvals") as usize, drop_abort: j["dropAbort"].as_bool().unwrap_or(false),
     }
 }
 
@@ -255,6 +274,7 @@ pub fn run_scenario(sc: &Scenario, sh: Arc<Mutex<Shared>>) -> J {
     {
         let mut g = sh.lock().unwrap();
         g.ignore_abort_permille = sc.ignore_abort_permille;
+        g.drop_abort = sc.drop_abort;
         g.mode_rng = Some(Rng(sc.script_seed ^ 0xabcdef));
         g.header = scenario_json(sc);
         g.phase = "init".into();
